@@ -84,6 +84,8 @@ TrHandle ==
         /\ Check("C19", "mres" \in DOMAIN Ev => Ev.mres = Ev.res, <<"facade verdict", pat, Ev.res>>)
         /\ Check("C19", ~Ev.clobber, <<"the call wrote into the caller's middleware slice", pat>>)
         /\ Check("C09", ~Ev.clobber, <<"the call wrote into the caller's middleware slice", pat>>)
+        \* ... which is also a write to memory the caller still owns (and may share between goroutines) outside any lock
+        /\ Check("C06", ~Ev.clobber, <<"the call wrote into the caller's middleware slice", pat>>)
         /\ rt' = IF Ev.res = "ok" THEN DoHandle(rt, pat, Ev.h, mws, Ev.methods) ELSE rt
         /\ prevRt' = rt /\ lastEv' = "handle"
         /\ tt' = IF Ev.res # "ok" THEN tt
@@ -95,6 +97,7 @@ TrFacade ==
   /\ Ev.ev = "facade" /\ UNCHANGED <<rt, prevRt, lastEv, tt>>
   /\ Check("C05", Ev.res = "ok", <<"facade constructor panicked">>)
   /\ Check("C19", ~Ev.clobber, <<"the constructor wrote into the caller's middleware slice">>)
+  /\ Check("C06", ~Ev.clobber, <<"the constructor wrote into the caller's middleware slice">>)
 
 \* accessors outside the listed properties (growth): the method lists are copies of the documented sets, Name() is the
 \* configured name, a facade's Pattern() is the concatenated prefix and it belongs to the router that made it
@@ -146,6 +149,7 @@ TrUse ==
   /\ Ev.ev = "use"
   /\ Check("C05", Ev.res = "ok", <<"Use panicked">>)
   /\ Check("C09", ~Ev.clobber, <<"Use wrote into the caller's middleware slice">>)
+  /\ Check("C06", ~Ev.clobber, <<"Use wrote into the caller's middleware slice">>)
   /\ Check("C09", /\ BagLeq(BagOf(ExpWrapsUse(Ev.mws)), BagOf(Ev.wraps))
                   /\ BagLeq(BagOf(Ev.wraps), BagOf(ExpWrapsUse(Ev.mws) \o OptWrapsUse(Ev.mws))),
            <<"factory invocations of Use", Ev.wraps, ExpWrapsUse(Ev.mws)>>)
@@ -175,6 +179,8 @@ ServeRoot ==
   IF Ev.method = "OPTIONS"
   THEN /\ Check("C04", R.kind = "opt" /\ R.pat = "" /\ RootAllowOK(rt, ToSet(R.allowH)), <<"OPTIONS *", R.kind, R.allowH, SetSeq(RootAllowLo(rt))>>)
        /\ Check("C09", R.order = Reverse(rt.use), <<"order OPTIONS *", R.order>>)
+       \* C19 names the Allow headers among what the facade calls must leave as the equivalent Router calls would
+       /\ Check("C19", Ev.hasMirror => (R.kind = "opt" /\ RootAllowOK(rt, ToSet(R.allowH))), <<"OPTIONS * after facade calls", R.allowH, SetSeq(RootAllowLo(rt))>>)
   ELSE Check("C05", R.kind \in {"404", "405"}, <<"root entry", Ev.method, Ev.path, R.kind>>)
 ServeRootTrace == Check("C18", (rt.cfg.trace /\ Ev.method = "OPTIONS" /\ R.kind = "opt") => "TRACE" \in ToSet(R.allowH), <<"TRACE missing from the Allow set of OPTIONS *", R.allowH>>)
 
